@@ -1,0 +1,10 @@
+//go:build verif
+
+package armor
+
+// Contracts for govc (/verif). Comments only.
+
+//@ func Decode
+//@ trusted
+//@ note armor.Decode is not verified here (bufio line reader, header map, base64 and CRC readers)
+//@ modifies heap
